@@ -47,6 +47,7 @@ STR = Sort("str")
 NONE = Sort("none")
 OD = Sort("od")              # OrderedDict[str,int]
 DEQUE = Sort("deque")        # deque[str|None] with maxlen
+BYTES = Sort("bytes")
 ROWS = Sort("rows")          # sequence of RdfStreamRow of unknown length (one opaque segment)
 ANY = Sort("any")            # opaque Python object (only identity matters)
 
@@ -148,6 +149,7 @@ class Registry:
         self.tables: list[Any] = []
         self.adts: dict[str, Any] = {}
         self.models: dict[str, Any] = {}
+        self.inline: set[str] = set()
 
     def add(self, c: Contract) -> None:
         if c.key in self.contracts:
@@ -240,3 +242,9 @@ class LoopSpec:
     invariant: Callable[[Any], dict[str, Any]]
     modifies: list[str]
     decreases: Callable[[Any], Any] | None = None
+
+
+def inline(key: str) -> None:
+    """No contract: the real body is executed at every call site (exact, non-modular). For small pure leaf functions
+    whose only meaningful specification is the property-level lemma that calls them."""
+    REGISTRY.inline.add(key)
